@@ -80,6 +80,8 @@ def handle (op : String) (j : Json) : Except String Json := do
     let prog ← parseProg (← j.getObjVal? "prog")
     let nF ← getNat j "nF"
     let cmp ← getStr j "cmp"
+    -- the writer's buffer class is not a superclass of the reader's: `get_buffer` joins the fields even when none was replaced
+    let forceJoin := (j.getObjVal? "join").toOption.bind (·.getBool?.toOption) |>.getD false
     let replJ ← getArr j "repl"
     let repl ← replJ.mapM (fun r => do
       let a ← r.getArr?
@@ -116,7 +118,7 @@ def handle (op : String) (j : Json) : Except String Json := do
       | "fastq" => joinKLine 64 n (cols.take 2 ++ [List.replicate n [43]] ++ cols.drop 2)
       | _ => joinKLine 62 n cols
     let lazyOut := fun (e : Ext) =>
-        if repl.isEmpty then Json.mkObj [("out", bstr (toBytes hdr ++ e.bytes)), ("inv", Json.bool inv)]
+        if repl.isEmpty && !forceJoin then Json.mkObj [("out", bstr (toBytes hdr ++ e.bytes)), ("inv", Json.bool inv)]
         else
           let cols := (List.range nF).map (fun jj =>
             match repl.find? (·.1 == jj) with
